@@ -116,6 +116,39 @@ Theorem C07_shape_roundtrip_path :
     = RG.IOk (RG.mk_element ly n x (Path ps w)).
 Proof. exact import_exported_path. Qed.
 
+(** * (7) A whole layout, model level: exporting a layout and importing the struct again (importer
+    model of C06, any variant [c]; [cm] = the importer's name -> cell map at that moment, which holds
+    every instantiated cell) leaves the layer table as it is and yields a layout with the same name,
+    the same instances in order (target by name, location, reflection, angle bit-identical; the
+    instance name is dropped), the same elements in order -- each with the same layer / purpose
+    NUMBERS, the shape modulo representation ([ishape]: a 4-vertex axis-parallel polygon comes back
+    as a Rect) and the net lower-cased -- and no annotation.  The three label hypotheses are stated
+    on the importer's own [contains] here; (8) derives them from exact geometry. *)
+Theorem C07_layout_roundtrip_model :
+  forall c ly cells cm l g,
+    layers_okb ly = true ->
+    export_layout xcfg_fixed ly cells l = Ok g ->
+    Forall elem_shape_ok (lay_elems l) ->
+    (forall i ci, In i (lay_insts l) -> nth_error cells (i_cell i) = Some ci ->
+                  exists idx, RG.cm_get cm (c_name ci) = Some idx) ->
+    (forall ej nm loc ek, In ej (lay_elems l) -> e_net ej = Some nm ->
+        label_location xcfg_fixed (e_shape ej) = Ok loc -> point_i32b loc = true -> In ek (lay_elems l) ->
+        exists b, RG.shape_contains c (ishape ek) loc = RG.IOk b) ->
+    (forall ej nm loc, In ej (lay_elems l) -> e_net ej = Some nm ->
+        label_location xcfg_fixed (e_shape ej) = Ok loc -> point_i32b loc = true ->
+        RG.shape_contains c (ishape ej) loc = RG.IOk true) ->
+    (forall ej nm loc ek, In ej (lay_elems l) -> e_net ej = Some nm ->
+        label_location xcfg_fixed (e_shape ej) = Ok loc -> point_i32b loc = true -> In ek (lay_elems l) ->
+        key_num ly (e_layer ek) = key_num ly (e_layer ej) ->
+        RG.shape_contains c (ishape ek) loc = RG.IOk true ->
+        exists nm', e_net ek = Some nm' /\ lower nm' = lower nm) ->
+    exists l', RG.import_layout c cm ly g = RG.IOk (ly, l') /\
+               lay_name l' = lay_name l /\
+               Forall2 (inst_rel cells cm) (lay_insts l) (lay_insts l') /\
+               Forall2 (elem_rel ly) (lay_elems l) (lay_elems l') /\
+               lay_annots l' = [].
+Proof. exact layout_roundtrip_model. Qed.
+
 (** * Non-vacuity: a library with two cells (one instantiating the other, reflected and rotated),
     a rectangle with swapped corners and a mixed-case net, a U-shaped polygon whose bounding-box
     centre is outside, an open Manhattan path of odd width: it is exportable, its labels are
@@ -154,3 +187,4 @@ Print Assumptions C07_layerspec_import.
 Print Assumptions C07_shape_roundtrip_polygon.
 Print Assumptions C07_shape_roundtrip_rect.
 Print Assumptions C07_shape_roundtrip_path.
+Print Assumptions C07_layout_roundtrip_model.
